@@ -55,7 +55,11 @@ def _inlinable(facts, caller, call, stop, lambdas):
         if not (isinstance(o, dict) and o.get("k") == "this"):
             # a method of a file-local wrapper class called on a named object (a global slot, a local guard): spliced with `this`
             # standing for that object
-            if "(anonymous namespace)" in f.name and isinstance(o, dict) and (o.get("k") == "ref" or (o.get("k") == "member" and skip_copies(o.get("base") or {}).get("k") == "this")):
+            named = isinstance(o, dict) and (o.get("k") == "ref" or (o.get("k") == "member" and skip_copies(o.get("base") or {}).get("k") == "this"))
+            mi = _method_info(facts, f)
+            private_peer = mi is not None and mi.get("access") in (1, 2) and isinstance(o, dict) and o.get("k") == "member" and skip_copies(o.get("base") or {}).get("k") == "this"
+            if named and ("(anonymous namespace)" in f.name or private_peer):
+                # (b) a private method of the enclosing class called by a nested helper class through its back pointer (Worker -> handler)
                 receiver = o
             else:
                 return None
@@ -171,8 +175,8 @@ def _flatten_dict(facts, owner, d, stop, depth, ids, active):
                 x["inl_value"] += off
         if receiver is not None:
             # `this` of the wrapper method is the object the method was called on
-            for x in walk(body):
-                if x.get("k") == "this":
+            for x in [y for y in walk(body) if y.get("k") == "this"]:
+                if True:
                     keep_id = x["id"]
                     x.clear()
                     x.update(copy.deepcopy({k_: v_ for k_, v_ in receiver.items() if k_ not in ("id",)}))
